@@ -207,6 +207,43 @@ Section Search.
                end
       end.
   End Pipeline.
+
+  (* ---- post-filtered searches and ties.
+     With prefilter = false the filter is applied AFTER the top-k cut.  When several rows tie at the k-th distance,
+     which of them survive the cut is decided by the library heap (`pop` removes SOME maximum) and by the real
+     `_rowid` order of SortExec - neither is fixed by this model (the theorems quantify over every heap_ok
+     heap).  The distance list BEFORE the filter is the same for every tie-break (C22_merge_topk_any), the list
+     AFTER it is not: it depends on how many of the tied rows kept pass the filter.  `adm_post` is the exact
+     envelope: the key lists `map d (filter flt S)` of the sorted top-k selections S of the ranked rows U
+     (Proofs_TopK.adm_post_sound / search_post_admissible). *)
+  Definition nonnull_d (r : R) : bool := negb (key_is_null (d r)).
+  (* the rows a search ranks (before any post-filter): visible rows of the probed partitions plus, unless
+     fast_search, the live filtered non-null unindexed rows; without an index the live filtered non-null rows *)
+  Definition universe (nprobes : nat) (mask_empty has_filter fast use_index : bool)
+             (deltas : list (list (list R))) (fresh : list R) : list R :=
+    if use_index then
+      concat (map (fun p => if mask_empty then p else filter (sel has_filter) p) (concat (map (firstn nprobes) deltas)))
+      ++ (if fast then [] else filter nonnull_d (filter (sel has_filter) fresh))
+    else filter (fun r => negb (deleted r) && nonnull_d r) (filter (fun r => negb has_filter || flt r) fresh).
+
+  Definition count_if (p : R -> bool) (l : list R) : nat := length (filter p l).
+
+  Definition adm_post (k : nat) (U : list R) (gk : list key) : bool :=
+    if (length U <=? k)%nat then list_eqb key_eqb gk (isort key_leb (map d (filter flt U)))
+    else match k with
+         | O => list_eqb key_eqb gk []
+         | S k' =>
+             match nth_error (isort key_leb (map d U)) k' with
+             | None => false
+             | Some c =>
+                 let need := (k - count_if (fun r => key_ltb (d r) c) U)%nat in
+                 let tp := count_if (fun r => key_eqb (d r) c && flt r) U in
+                 let tn := count_if (fun r => key_eqb (d r) c && negb (flt r)) U in
+                 let LF := isort key_leb (map d (filter (fun r => key_ltb (d r) c) (filter flt U))) in
+                 let m := (length gk - length LF)%nat in
+                 list_eqb key_eqb gk (LF ++ repeat c m) && (need - tn <=? m)%nat && (m <=? Nat.min need tp)%nat
+             end
+         end.
 End Search.
 
 (* ---------------------------------------------------------------- correspondence checkers *)
@@ -263,8 +300,12 @@ Definition chk_merge (i : nat * list (list (N * key))) (o : list (N * key)) : bo
 (* stream `search`: Scanner::nearest end to end.
    input ((k, refine, nprobes), (mask_empty, has_filter, prefilter, fast, use_index, elem_f32), deltas (partitions in probe
    order), fresh rows (no-index arm: all rows)); output (id, reported distance) in output order.
-   Agreement: the reported distances are, in order, the model's; ids are distinct; every returned row is a row
-   of the input, not deleted, passes the filter, and carries its own distance. *)
+   Agreement: ids are distinct; every returned row is a row of the input, not deleted, passes the filter, and
+   carries its own distance; and
+     - prefilter or no filter: the reported distances are, in order, the model's (the same for every tie-break);
+     - post-filter: the reported distances are, in order, those of the post-filter of SOME sorted top-k selection
+       of the ranked rows (adm_post; ties at the k-th distance are the heap's / the row-id order's business), and
+       every returned row is a ranked row. *)
 Definition chk_search (i : (nat * option nat * nat) * (bool * bool * bool * bool * bool * bool) * list (list (list crow)) * list crow)
            (o : outcome (list (N * key))) : bool :=
   let '(knp, flags, deltas, fresh) := i in
@@ -273,11 +314,13 @@ Definition chk_search (i : (nat * option nat * nat) * (bool * bool * bool * bool
   let m := search crow c_id c_d c_d c_del c_flt (peek_max crow c_d) (pop_max crow c_id c_d)
                   elem_f32 k refine nprobes mask_empty has_filter prefilter fast use_index deltas fresh in
   let all := concat (concat deltas) ++ fresh in
+  let post := has_filter && negb prefilter in
+  let U := universe crow c_d c_del c_flt nprobes mask_empty false fast use_index deltas fresh in
   match m, o with
   | Ok (rows, _), Ok got =>
-      key_list_eqb (map c_d rows) (map snd got)
+      (if post then adm_post crow c_d c_flt k U (map snd got) else key_list_eqb (map c_d rows) (map snd got))
       && nodup_ids (map fst got)
-      && forallb (fun g => match find_row (fst g) all with
+      && forallb (fun g => match find_row (fst g) (if post then U else all) with
                            | Some r => negb (c_del r) && (negb has_filter || c_flt r) && key_eqb (c_d r) (snd g)
                            | None => false
                            end) got
